@@ -38,7 +38,7 @@ DEVICE_ARG_FORMS = [
 def gen_cases(tier, seed):
     n = 70 if tier == 'quick' else 1200
     cs = []
-    for i, b in enumerate(gen_cases_corpus(n, seed, opts={'max_stmts': 8}, with_repo=True)):
+    for i, b in enumerate(gen_cases_corpus(n, seed, opts={'max_stmts': 8, 'seed_vars': True}, with_repo=True)):
         cs.append({'base': b, 'k': i, 'nscripts': 3 if tier == 'quick' else 8})
     for i, t in enumerate(DEVICE_ARG_FORMS):
         cs.append({'base': {'src': 'text', 'text': t, 'seed': i}, 'k': i, 'nscripts': 3, 'allcfg': True})
